@@ -1052,3 +1052,30 @@ func (c *Ctx) pureScalarFn(fn *types.Func, depth int) bool {
 	})
 	return ok
 }
+
+// callsWithinHelpers: u calls target in its own body, or in an unexported function of its
+// package that it calls (the part of the body that made the call moved into a helper),
+// to depth 2.
+func (c *Ctx) callsWithinHelpers(u FuncUnit, target *types.Func, depth int) bool {
+	if u.Decl == nil || u.Decl.Body == nil || target == nil {
+		return false
+	}
+	info := u.Pkg.TypesInfo
+	for _, ce := range callsIn(u.Decl.Body, true) {
+		h := originOf(Callee(info, ce))
+		if h == nil {
+			continue
+		}
+		if h == target {
+			return true
+		}
+		if depth < 2 && !h.Exported() && h.Pkg() == u.Obj.Pkg() && h != u.Obj {
+			if hd := c.declOf[h]; hd != nil && hd.Body != nil {
+				if c.callsWithinHelpers(FuncUnit{h, hd, c.pkgOf[hd]}, target, depth+1) {
+					return true
+				}
+			}
+		}
+	}
+	return false
+}
